@@ -89,6 +89,44 @@ async def _session(loop, users, bases, tree, plan, first_login, payload):
                 await W.run_line(wd, raw, step[1].encode())
                 recs.append({"cmd": step[1], "state": st, "late": False, "replies": codes_since(c0), "calls": [(n, p) for _, n, p in spy.log[n0:]], "tree0": tree0, "tree1": wd.tree()})
                 continue
+            if step[0] == "pipe":
+                # ("pipe", [lines], delay): the data connection is made first (as aioftp's own client does), then ALL the
+                # lines go out in one segment, on a backend whose every call takes `delay` virtual seconds
+                lines_, delay = step[1], step[2]
+                await W.run_line(wd, raw, b"EPSV")
+                await W.data_connect(wd, raw)
+                st = state()
+                tree0 = wd.tree()
+                n0 = len(spy.log)
+                c0 = len(raw.replies)
+                spy.delay = delay
+                raw.send_raw("".join(l + "\r\n" for l in lines_).encode())
+                await loop.settle()
+                got = None
+                verb0 = lines_[0].split(" ")[0]
+                for _ in range(24):
+                    finals = [c for c in codes_since(c0) if c >= 200]
+                    if raw.data is not None and 150 in codes_since(c0):
+                        dr, dw = raw.data
+                        if verb0 in ("STOR", "APPE"):
+                            dw.write(payload)
+                            dw.close()
+                        else:
+                            try:
+                                got = await asyncio.wait_for(dr.read(), 30)
+                            except Exception:  # noqa
+                                got = None
+                            dw.close()
+                        raw.data = None
+                        await loop.settle()
+                    if len(finals) >= len(lines_) or raw.eof:
+                        break
+                    await asyncio.sleep(0.25)
+                    await loop.settle()
+                spy.delay = 0
+                recs.append({"cmd": lines_[0], "pipe": list(lines_), "delay": delay, "state": st, "late": False, "replies": codes_since(c0), "data": got,
+                             "pipe_calls": [(n, p) for _, n, p in spy.log[n0:]], "state_after": state(), "tree0": tree0, "tree1": wd.tree()})
+                continue
             await W.run_line(wd, raw, b"EPSV")
             for line in (step[3] if len(step) > 3 else []):
                 await W.run_line(wd, raw, line.encode())
